@@ -63,7 +63,7 @@ def new_run():
          "explored",
          "solo outcome of each call is computed unscheduled on a fresh build "
          "of the same scenario and must be reproducible (checked twice)",
-         "2-3 threads, frames <= 5 rows, 8 scenario families"])
+         "2-3 threads, frames <= 5 rows, 9 scenario families"])
 
 
 # ------------------------------------------------------------------ helpers
@@ -263,7 +263,7 @@ def judge(run, sched, name, variant, n, seed, policy, base, tag):
     run.count("preemptions", r.switches)
     desc = {"scenario": name, "variant": variant, "threads": n, "seed": str(seed),
             "labels": b.labels, "policy": policy.describe(), "start": r.start,
-            "trace": r.trace[:400], "yields": r.yields, "flags": b.flags}
+            "trace": r.trace[:6000], "yields": r.yields, "flags": b.flags}
     nontrivial = r.switches >= 1 and all(y > 0 for y in r.yields)
     run.case(canon_hash([name, variant, n, r.start, r.trace]), nontrivial,
              sample={k: desc[k] for k in ("scenario", "variant", "threads",
